@@ -180,6 +180,16 @@ impl MuxStream {
                 // We have reached the congestion window limit. Wait for an `Acknowledge`
                 debug!("waiting for `Acknowledge`");
                 self.writer_waker.register(cx.waker());
+                // An `Acknowledge` or a close may have landed between our check and the
+                // registration, in which case nobody will wake us: check again now that
+                // the waker is in place.
+                if self.finish_sent.load(Ordering::Acquire) {
+                    debug!("stream has been closed, returning `BrokenPipe`");
+                    return Poll::Ready(None);
+                }
+                if self.psh_send_remaining.load(Ordering::Acquire) != 0 {
+                    continue;
+                }
                 // Since all writes start with `poll_flush`, we don't need to
                 // flush here. There is actually no way to `poll_flush` without
                 // magic.
